@@ -1,4 +1,6 @@
 import Bgpfu.Lemmas.Writers
+import Bgpfu.Lemmas.SendLoop
+import Bgpfu.Thm.C06
 /-!
 # C10 — serialised requests are well-formed, delimiter-safe and carry values unchanged
 
@@ -343,5 +345,131 @@ example : parseAttr (escAttr false b!"/a[b='<&>\"']") = some b!"/a[b='<&>\"']" :
 example (j : Nat) : OccAt marker (toWire false (request .pinned 3 (.get (some (.subtree b!"<a>]]&gt;</a>"))))) j ↔
     j = (render false (request .pinned 3 (.get (some (.subtree b!"<a>]]&gt;</a>"))))).length :=
   request_framed .pinned 3 _ (by simp [Op.trees]) (by simp [rawParams]; decide) j
+
+/-! ## the bytes reach the socket: `write_all` is a loop over partial writes
+
+`SendHandle::send` of the TLS and CLI transports hands the serialised message to `write_all`
+(tls.rs:106, junos_local.rs:116). One call of the underlying `poll_write` may accept only part of the
+buffer; `caps` below lists, call by call, how many bytes the writer is prepared to accept (`0` = the call
+fails). Model: `Framing.writeAll` (Model/SendLoop.lean); `Framing.writeOnce` is the variant with a single
+`write_buf` call. -/
+
+open Framing (writeAll writeOnce writeMany recvAll datas split pump)
+
+/-- **`write_all` writes all of it.** For every message and every sequence of partial-write sizes, as long
+as no call fails (every size ≥ 1) and the writer does not stop accepting for good (`data.length ≤ caps.length`
+is enough calls in the worst case of one byte per call): the chunks written, concatenated, are the message,
+and `write_all` reports success. -/
+theorem write_all_complete (data : List Nat) (caps : List Nat) (hpos : ∀ c ∈ caps, 1 ≤ c)
+    (hlen : data.length ≤ caps.length) :
+    (writeAll data caps).1.flatten = data ∧ (writeAll data caps).2 = true :=
+  Framing.writeAll_complete data caps hpos hlen
+
+/-- … and with *no* assumption on the sizes (failing calls, too few calls): what was written is a prefix of
+the message — never reordered, duplicated or padded — every write is non-empty, and `Ok(())` is reported
+exactly when nothing is missing. -/
+theorem write_all_prefix (data : List Nat) (caps : List Nat) :
+    (∃ rest, (writeAll data caps).1.flatten ++ rest = data ∧ ((writeAll data caps).2 = true ↔ rest = [])) ∧
+    ∀ ch ∈ (writeAll data caps).1, ch ≠ [] :=
+  ⟨Framing.writeAll_spec data caps, Framing.writeAll_chunks data caps⟩
+
+/-- the stream a sequence of `send` calls puts on the socket (`p.2` = the partial-write sizes of that call) -/
+def sentChunks (ws : Bool) (sends : List (XNode × List Nat)) : List (List Nat) :=
+  writeMany writeAll (sends.map fun p => (toWire ws p.1, p.2))
+
+theorem sentChunks_flatten (ws : Bool) (sends : List (XNode × List Nat))
+    (hc : ∀ p ∈ sends, (∀ c ∈ p.2, 1 ≤ c) ∧ (toWire ws p.1).length ≤ p.2.length) :
+    (sentChunks ws sends).flatten = Framing.wire (sends.map fun p => render ws p.1) := by
+  unfold sentChunks
+  rw [Framing.writeMany_flatten _ (by
+    intro q hq
+    obtain ⟨p, hp, rfl⟩ := List.mem_map.mp hq
+    exact hc p hp)]
+  simp [Framing.wire, List.map_map, Function.comp_def, toWire]
+
+/-- composition core: all that is needed of the messages is that each is well framed (C06) -/
+theorem written_then_received_wf (ws : Bool) (sends : List (XNode × List Nat)) (cs : List (List Nat))
+    (hwf' : ∀ p ∈ sends, Framing.WellFramed (render ws p.1))
+    (hc : ∀ p ∈ sends, (∀ c ∈ p.2, 1 ≤ c) ∧ (toWire ws p.1).length ≤ p.2.length)
+    (hcs : cs.flatten = (sentChunks ws sends).flatten) :
+    split (sentChunks ws sends).flatten = (sends.map fun p => toWire ws p.1, []) ∧
+    recvAll .fixed (sends.length + 1) [] (datas cs) = (sends.map fun p => toWire ws p.1, .pending []) ∧
+    pump .fixed (cs.map .data) [] = (sends.map fun p => toWire ws p.1, [], .running) := by
+  have hwf : ∀ m ∈ sends.map (fun p => render ws p.1), Framing.WellFramed m := by
+    intro m hmem
+    obtain ⟨p, hp, rfl⟩ := List.mem_map.mp hmem
+    exact hwf' p hp
+  have hfl := sentChunks_flatten ws sends hc
+  have e : (sends.map fun p => render ws p.1).map (· ++ marker) = sends.map fun p => toWire ws p.1 := by
+    simp [List.map_map, Function.comp_def, toWire]
+  refine ⟨?_, ?_, ?_⟩
+  · rw [hfl, Framing.split_wire _ hwf, e]
+  · have := Framing.recvAll_framed _ cs hwf (hcs.trans hfl)
+    rwa [List.length_map, e] at this
+  · have := Framing.pump_framed _ cs hwf (hcs.trans hfl)
+    rwa [e] at this
+
+/-- **Sender and receiver composed (C10 ∘ C06), full statement, any number of messages.**
+Requests whose names are XML names and whose raw leaves are marker-free (`no_marker_inside`) are
+serialised by `to_xml`, each is written with `write_all` under ANY partial-write sizes (no failing call), and
+the byte stream is cut into the receiver's reads in ANY way `cs` (in particular: as the chunks that were
+written). Then the receiver's greedy split of the stream, the receive loop `recvAll` of C06 run on `cs`, and
+the SSH pump run on `cs` as packets, all yield exactly the serialised requests — each once, in order,
+nothing left over. -/
+theorem written_then_received (ws : Bool) (sends : List (XNode × List Nat)) (cs : List (List Nat))
+    (hm : ∀ p ∈ sends, namesOk p.1 = true ∧ ∀ r ∈ rawLeaves p.1, MF r)
+    (hc : ∀ p ∈ sends, (∀ c ∈ p.2, 1 ≤ c) ∧ (toWire ws p.1).length ≤ p.2.length)
+    (hcs : cs.flatten = (sentChunks ws sends).flatten) :
+    split (sentChunks ws sends).flatten = (sends.map fun p => toWire ws p.1, []) ∧
+    recvAll .fixed (sends.length + 1) [] (datas cs) = (sends.map fun p => toWire ws p.1, .pending []) ∧
+    pump .fixed (cs.map .data) [] = (sends.map fun p => toWire ws p.1, [], .running) :=
+  written_then_received_wf ws sends cs (fun p hp => wire_well_framed ws p.1 (hm p hp).1 (hm p hp).2) hc hcs
+
+/-- the same for the repaired `to_xml` (`guard`), with no condition on the raw leaves: every message that
+`send` does not refuse arrives -/
+theorem sent_then_received_guard (c : Cfg) (hg : c.guard = true) (sends : List (XNode × List Nat))
+    (cs : List (List Nat)) (hn : ∀ p ∈ sends, namesOk p.1 = true)
+    (hs : ∀ p ∈ sends, send c p.1 ≠ none)
+    (hc : ∀ p ∈ sends, (∀ k ∈ p.2, 1 ≤ k) ∧ (toWire c.wsRefs p.1).length ≤ p.2.length)
+    (hcs : cs.flatten = (sentChunks c.wsRefs sends).flatten) :
+    split (sentChunks c.wsRefs sends).flatten = (sends.map fun p => toWire c.wsRefs p.1, []) ∧
+    recvAll .fixed (sends.length + 1) [] (datas cs) = (sends.map fun p => toWire c.wsRefs p.1, .pending []) ∧
+    pump .fixed (cs.map .data) [] = (sends.map fun p => toWire c.wsRefs p.1, [], .running) := by
+  refine written_then_received_wf c.wsRefs sends cs (fun p hp => ?_) hc hcs
+  have hmf : MF (render c.wsRefs p.1) := by
+    rw [mf_iff_find]
+    cases hx : find marker (render c.wsRefs p.1) with
+    | none => rfl
+    | some i => exact absurd (by simp [send, hg, hx]) (hs p hp)
+  exact find_wire _ hmf (endsGt_render _ p.1 (hn p hp))
+
+/-- the receiver reads exactly the chunks that were written -/
+theorem written_chunks_received (ws : Bool) (sends : List (XNode × List Nat))
+    (hm : ∀ p ∈ sends, namesOk p.1 = true ∧ ∀ r ∈ rawLeaves p.1, MF r)
+    (hc : ∀ p ∈ sends, (∀ c ∈ p.2, 1 ≤ c) ∧ (toWire ws p.1).length ≤ p.2.length) :
+    recvAll .fixed (sends.length + 1) [] (datas (sentChunks ws sends))
+      = (sends.map fun p => toWire ws p.1, .pending []) :=
+  (written_then_received ws sends _ hm hc rfl).2.1
+
+/-- **a single `write_buf` call instead of the loop**: a 43-byte request, a writer that accepts 16 bytes per
+call. One call writes the first 16 bytes and the rest is never written: the peer's receiver finds no
+delimiter and waits, holding `<rpc message-id=`. With the loop (same sizes) the request arrives. -/
+theorem write_once_cex :
+    let msg := toWire false (request .pinned 7 (.get none))
+    msg.length = 43 ∧
+    (writeOnce msg [16, 16, 16]).1.flatten = b!"<rpc message-id=" ∧
+    (writeOnce msg [16, 16, 16]).2 = false ∧
+    recvAll .fixed 2 [] (datas (writeOnce msg [16, 16, 16]).1) = ([], .pending b!"<rpc message-id=") ∧
+    recvAll .fixed 2 [] (datas (writeAll msg [16, 16, 16]).1) = ([msg], .pending []) := by decide
+
+/-- non-vacuity of `written_then_received`: two requests, the first written 7 bytes at a time, the
+second in writes of 1, 2, 3, … bytes; the delimiter of the first is cut 5|1 by the writes -/
+example :
+    let m1 := request .pinned 7 (.get none)
+    let m2 := request .pinned 8 (.get (some (.xpath b!"/a")))
+    let sends := [(m1, List.replicate 43 7), (m2, List.range' 1 80)]
+    (sentChunks false sends).length = 19 ∧
+    recvAll .fixed 3 [] (datas (sentChunks false sends)) = ([toWire false m1, toWire false m2], .pending []) := by
+  decide
 
 end Writers
